@@ -579,6 +579,7 @@ pub fn run_property(def: &PropDef, cfg: &RunCfg) -> Outcome {
             "distinct_nontrivial": total.distinct_nontrivial(),
             "distinct_nontrivial_hashed": total.nontrivial.len(),
             "distinct_nontrivial_by_enumeration_index": total.nontrivial_counted,
+            "nontrivial_beyond_hash_cap_not_counted": total.nontrivial_beyond_cap,
             "rule": def.rule,
             "samples": total.samples,
             "exhaustive": all_exhaustive,
